@@ -119,8 +119,16 @@ def rectTables (W : Mat) (L U : List Vec) (active : List Nat) (sdom scov : Vec) 
     | some a, some b => tri (verdictB a) (verdictB b)
     | _, _ => 'E'
   let pess := if wantPess then triTable n active fun i j =>
-      tri (some (checkDomTol W (get L i) (get U i) (get L j) (get U j) tau))
-          (some (checkDomTol W (get L i) (get U i) (get L j) (get U j) (-tau)))
+      let a := checkDomTol W (get L i) (get U i) (get L j) (get U j) tau
+      let b := checkDomTol W (get L i) (get U i) (get L j) (get U j) (-tau)
+      if a == b then (if a then '1' else '0')
+      else if get L i == get L j then
+        -- identical lower corners (twin designs): the verdict sits ON the boundary by identity, not by a
+        -- numerical accident; it is robust when the exact model and the binary64 mirror of the code agree
+        let e := checkDomTol W (get L i) (get U i) (get L j) (get U j) 0
+        let f := Pess.checkDominatesR Pess.r64 true W (get L i) (get U i) (get L j) (get U j)
+        if e == f then (if e then '1' else '0') else '?'
+      else '?'
     else "_"
   dom ++ "|" ++ cov ++ "|" ++ pess
 
